@@ -189,7 +189,22 @@ pub fn hostile_scalar(rng: &mut impl RngCore, valid: &[u8]) -> (&'static str, Ve
 /// Raw (97-byte) G1 encodings: limbs + k*p, flag bytes, off-curve.
 pub fn hostile_g1_raw(rng: &mut impl RngCore, valid: &[u8]) -> (&'static str, Vec<u8>) {
     let mut v = valid.to_vec();
-    match rng.next_u32() % 9 {
+    match rng.next_u32() % 11 {
+        9 | 10 if valid[96] == 0 => {
+            // on the curve, outside the prime-order subgroup
+            // Safety: `valid` is an encoding produced by the library.
+            let p = unsafe { G1Affine::from_slice_unchecked(valid) };
+            match cofactor_point(rng) {
+                Some(t) => {
+                    let q: G1Affine = (G1Projective::from(p) + t).into();
+                    ("on-curve-outside-subgroup", q.to_raw_bytes().to_vec())
+                }
+                None => {
+                    v[96] = 3;
+                    ("flag=3", v)
+                }
+            }
+        }
         0 => {
             v[96] = 2;
             ("flag=2", v)
@@ -376,4 +391,97 @@ pub fn canonical_domain_header(log: u32) -> Vec<u8> {
         out.extend_from_slice(&x.to_bytes());
     }
     out
+}
+
+// ---------------------------------------------------------------------------
+// Several group elements edited together: every edited point stays on the
+// curve but leaves the prime-order subgroup, and the cofactor components
+// cancel (+T and -T on two points, or T, T, T for a point T of order 3), so a
+// check applied to an aggregate of the points instead of to each point sees
+// nothing.
+// ---------------------------------------------------------------------------
+
+
+/// A non-trivial point of the cofactor subgroup of E(Fp): [r]R for a random
+/// curve point R (r as the scalar -1, plus R).
+fn cofactor_point(rng: &mut impl RngCore) -> Option<G1Projective> {
+    for _ in 0..64 {
+        let mut x = [0u8; 48];
+        rng.fill_bytes(&mut x);
+        x[0] = (x[0] & 0x1f) | 0x80; // compressed, not infinity, sign 0, x < 2^381
+        let Some(r) = Option::<G1Affine>::from(G1Affine::from_compressed_unchecked(&x)) else { continue };
+        if !bool::from(r.is_on_curve()) {
+            continue;
+        }
+        let rp = G1Projective::from(r);
+        let t = rp * (-BlsScalar::one()) + rp;
+        if !bool::from(t.is_identity()) {
+            return Some(t);
+        }
+    }
+    None
+}
+
+/// Shift `k` (2 or 3) of the given points by cancelling cofactor components.
+/// `get`/`put` read and write point number i of the encoding.
+pub fn cancelling_cofactor_shift(
+    rng: &mut impl RngCore,
+    count: usize,
+    get: &dyn Fn(usize) -> Option<G1Affine>,
+    put: &mut dyn FnMut(usize, G1Affine),
+) -> Option<&'static str> {
+    if count < 2 {
+        return None;
+    }
+    let t = cofactor_point(rng)?;
+    let i = rng.next_u32() as usize % count;
+    let mut j = rng.next_u32() as usize % count;
+    if j == i {
+        j = (i + 1) % count;
+    }
+    let three = count >= 3 && rng.next_u32() % 3 == 0;
+    if three {
+        // T1 + T2 + T3 = 0 with T3 = -(T1 + T2), T2 = [2]T1
+        let mut l = rng.next_u32() as usize % count;
+        while l == i || l == j {
+            l = (l + 1) % count;
+        }
+        let t2 = t.double();
+        let t3 = -(t + t2);
+        put(i, (G1Projective::from(get(i)?) + t).into());
+        put(j, (G1Projective::from(get(j)?) + t2).into());
+        put(l, (G1Projective::from(get(l)?) + t3).into());
+        Some("three-points-with-cancelling-cofactor-components")
+    } else {
+        put(i, (G1Projective::from(get(i)?) + t).into());
+        put(j, (G1Projective::from(get(j)?) - t).into());
+        Some("two-points-with-cancelling-cofactor-components")
+    }
+}
+
+/// The same on a run of raw (97-byte) encodings starting at `off`.
+pub fn cancelling_raw(rng: &mut impl RngCore, v: &mut Vec<u8>, off: usize, count: usize) -> Option<&'static str> {
+    let snapshot = v.clone();
+    let get = |i: usize| -> Option<G1Affine> {
+        let b = &snapshot[off + 97 * i..off + 97 * i + 97];
+        if b[96] != 0 {
+            return None;
+        }
+        // Safety: bytes of a valid encoding produced by the library itself.
+        Some(unsafe { G1Affine::from_slice_unchecked(b) })
+    };
+    let mut put = |i: usize, p: G1Affine| v[off + 97 * i..off + 97 * i + 97].copy_from_slice(&p.to_raw_bytes());
+    cancelling_cofactor_shift(rng, count, &get, &mut put)
+}
+
+/// The same on a run of compressed (48-byte) encodings starting at `off`.
+pub fn cancelling_compressed(rng: &mut impl RngCore, v: &mut Vec<u8>, off: usize, count: usize) -> Option<&'static str> {
+    let snapshot = v.clone();
+    let get = |i: usize| -> Option<G1Affine> {
+        let mut a = [0u8; 48];
+        a.copy_from_slice(&snapshot[off + 48 * i..off + 48 * i + 48]);
+        Option::<G1Affine>::from(G1Affine::from_compressed_unchecked(&a))
+    };
+    let mut put = |i: usize, p: G1Affine| v[off + 48 * i..off + 48 * i + 48].copy_from_slice(&p.to_compressed());
+    cancelling_cofactor_shift(rng, count, &get, &mut put)
 }
